@@ -41,7 +41,7 @@ func newBLS(n, t int) (*blsWorld, error) {
 	if err != nil {
 		return nil, err
 	}
-	pk, _ := sg[1].ThresholdPK()
+	pk, _ := sg[cryptolib.IDs(n)[0]].ThresholdPK()
 	v := &bls.Verifier{}
 	if err := v.Init(pk); err != nil {
 		return nil, err
@@ -63,9 +63,21 @@ func (w *blsWorld) verdict(v *bls.Verifier, digest []byte, sigs [][]byte, who []
 	return v.Verify(digest, agg) != nil
 }
 
-func blsCase(n, t int) harness.Case {
-	return harness.Case{ID: fmt.Sprintf("bls/n%dt%d", n, t), Run: func(c *harness.C) {
+func blsCase(n, t int) harness.Case { return blsCaseIDs(n, t, nil) }
+
+// blsCaseIDs: the same catalogue for a committee whose identifiers are not 1..n in ascending order.
+func blsCaseIDs(n, t int, ids []uint16) harness.Case {
+	name := fmt.Sprintf("bls/n%dt%d", n, t)
+	if ids != nil {
+		name += fmt.Sprintf("/ids%v", ids)
+	}
+	return harness.Case{ID: name, Run: func(c *harness.C) {
 		what := fmt.Sprintf("bls n=%d t=%d", n, t)
+		if ids != nil {
+			what += fmt.Sprintf(" identifiers %v", ids)
+			cryptolib.Parties = ids
+			defer func() { cryptolib.Parties = nil }()
+		}
 		c.Exec("[bls] " + what)
 		w, err := newBLS(n, t)
 		if err != nil {
@@ -106,7 +118,7 @@ func blsCase(n, t int) harness.Case {
 					c.Violation("genuine-is-accepted", "c09-bls-rejects-genuine:"+name, fmt.Sprintf("%s: %s with signers %v rejected", what, name, who), rp)
 				}
 			}
-			c.Outcome(fmt.Sprintf("bls|%d|%d|%s|%v", n, t, name, who))
+			c.Outcome(fmt.Sprintf("bls|%d|%d|%v|%s|%v", n, t, ids, name, who))
 		}
 		for _, sub := range cryptolib.Subsets(cryptolib.IDs(n), t, n) {
 			var sigs [][]byte
@@ -254,7 +266,7 @@ func blsCase(n, t int) harness.Case {
 		}
 		if t >= 2 {
 			// a single share presented as the threshold signature
-			sg, _ := w.signers[1].Sign(nil, digest)
+			sg, _ := w.signers[cryptolib.IDs(n)[0]].Sign(nil, digest)
 			c.Add("evaluations", 1)
 			if w.v.Verify(digest, sg) == nil {
 				c.Violation("altered-is-rejected", "c09-bls-accepts:single-share", what+": one partial signature verifies as threshold signature", nil)
